@@ -1,6 +1,6 @@
 (* C15 -- PatProofs.v : lemmas about the StringMatcher model (Pat/Translate.v, Pat/Ere.v). *)
 From Coq Require Import List Arith NArith Bool Lia.
-From Muscle Require Import Gen.Consts Pat.Ere Pat.EreProofs Pat.Translate Pat.Simple Pat.TranslateProofs Pat.DenoteProofs Pat.UniqueProofs Pat.UvProofs Pat.RangeProofs Pat.SimpleParse Pat.SimpleParseProofs Pat.PatSpec.
+From Muscle Require Import Gen.Consts Pat.Ere Pat.EreProofs Pat.Translate Pat.Simple Pat.TranslateProofs Pat.DenoteProofs Pat.UniqueProofs Pat.UvProofs Pat.RangeProofs Pat.SimpleParse Pat.SimpleParseProofs Pat.RangeParse Pat.RangeParseProofs Pat.PatSpec.
 Import ListNotations.
 Local Open Scope N_scope.
 
@@ -409,6 +409,17 @@ Definition ex_alt : salt :=
   SLast (SCons (SLit 97) (SCons SOne (SCons SRun (SCons (SClass true [(98, 100); (120, 120)])
         (SCons (SGroup (SMore (SCons (SEsc 42) SNil) false (SMore (SCons (SLit 101) SNil) true (SLast (SCons (SLit 102) (SCons (SLit 46) SNil))))))
          SNil))))).
+
+(* ------------------------------------------------------------------ range lists, read over pattern strings *)
+
+Theorem range_doc_str : forall engine p neg cs st0 k v,
+  read_ranges p = Some (neg, cs) -> v <= u32_max ->
+  matches (fst (set_pattern engine st0 p true)) (repeat 48 k ++ print_num v) =
+  xorb neg (existsb (fun c => clause_has c v) cs).
+Proof.
+  intros engine p neg cs st0 k v H Hv. apply read_ranges_sound in H as (Hp & Hne & Hok). subst p.
+  apply range_doc; assumption.
+Qed.
 
 (* ------------------------------------------------------------------ where the code departs from the documentation *)
 
